@@ -96,12 +96,12 @@ def run_tlc(workdir, module, cfg_text, workers=4, timeout=1800, extra=(), java_o
     return p.returncode, out
 
 
-def run_apalache(workdir, module_file, init, inv, length, timeout=600):
+def run_apalache(workdir, module_file, init, inv, length, timeout=600, extra=()):
     """Apalache: is `inv` preserved from `init` within `length` steps? -> (True | False, output).
     Anything else than OK / a reported violation is a tool failure."""
     os.makedirs(workdir, exist_ok=True)
     cmd = ["apalache-mc", "check", "--init=" + init, "--inv=" + inv, "--length=%d" % length,
-           "--out-dir=" + os.path.join(workdir, "_apalache-out"), "--run-dir=" + os.path.join(workdir, "_run"), module_file]
+           "--out-dir=" + os.path.join(workdir, "_apalache-out"), "--run-dir=" + os.path.join(workdir, "_run")] + list(extra) + [module_file]
     try:
         p = subprocess.run(cmd, cwd=workdir, stdout=subprocess.PIPE, stderr=subprocess.STDOUT, timeout=timeout,
                            env=dict(os.environ, JAVA_TOOL_OPTIONS=""))
@@ -113,6 +113,37 @@ def run_apalache(workdir, module_file, init, inv, length, timeout=600):
     if "EXITCODE: ERROR (12)" in out:
         return False, out
     raise ToolFailure("apalache-mc failed on %s:\n%s" % (module_file, out[-2000:]))
+
+
+def apalache_suite(workdir, module, obligations, neg_replace, cinit=None):
+    """Discharge inductive-invariant obligations [(title, init, inv, length)] of tla/<module>.tla with Apalache and
+    check that the mutated module (text replacement neg_replace = (old, new)) is refuted (vacuity guard).
+    -> dict for the evidence file; raises ToolFailure when an obligation fails."""
+    os.makedirs(workdir, exist_ok=True)
+    src = os.path.join(TLA, module + ".tla")
+    shutil.copy(src, workdir)
+    res = {}
+
+    def run(mod, init, inv, length):
+        cmd_extra = ["--cinit=" + cinit] if cinit else []
+        return run_apalache(workdir, mod + ".tla", init, inv, length, extra=cmd_extra)
+    for title, init, inv, length in obligations:
+        ok, out = run(module, init, inv, length)
+        if not ok:
+            raise ToolFailure("%s: '%s' does not hold - the specification is inconsistent" % (module, title))
+        res[title] = "proved by apalache-mc (integers unbounded)"
+    old, new = neg_replace
+    text = open(src).read()
+    if old not in text:
+        raise ToolFailure("%s: the negative control could not be derived" % module)
+    with open(os.path.join(workdir, module + "Neg.tla"), "w") as f:
+        f.write(text.replace("MODULE " + module, "MODULE " + module + "Neg").replace(old, new))
+    title, init, inv, length = obligations[1]
+    ok, out = run(module + "Neg", init, inv, length)
+    if ok:
+        raise ToolFailure("vacuity guard: %s was expected not to be inductive in the mutated %s" % (inv, module))
+    res["negative control (%s -> %s)" % (old, new)] = "%s not inductive, as expected" % inv
+    return res
 
 
 def tlc_ok(rc, out, what):
